@@ -55,6 +55,7 @@ type ctrlIn struct {
 	PmName    string   `json:"pm_name,omitempty"` // identity | quant:<q> | plateau (expanded by the driver and by Drv/Ctrl.v)
 	RespQ     int      `json:"resp_q"`
 	Alg       string   `json:"alg"` // direct | limited | pid
+	CfgAlg    string   `json:"cfg_alg,omitempty"` // documented spelling through which the loop is obtained (drv_ctrl_cfg.go); "" = built directly
 	Lim       int      `json:"lim"`
 	P         string   `json:"p"`
 	I         string   `json:"i"`
@@ -211,6 +212,9 @@ func runCtrl(ctx *Ctx, in ctrlIn) ([]ctrlObs, string) {
 		loop = control_loop.NewDirectControlLoop(&l)
 	default:
 		loop = control_loop.NewPidControlLoop(pF(in.P), pF(in.I), pF(in.D))
+	}
+	if in.CfgAlg != "" {
+		loop = ctrlLoopFromConfig(dir, in, fan)
 	}
 	curve := &ctrlStubCurve{}
 	c := controller.VerifNewController(nil, fan, curve, loop, 100*time.Millisecond)
@@ -566,6 +570,7 @@ func genCtrlCase(rng *Rng, mode string, cmdOK bool) (ctrlIn, []string) {
 		in.P, in.I, in.D = jF(0.3), jF(0.02), jF(0.005)
 	}
 	tags = append(tags, "alg="+in.Alg)
+	cfgAlg := rng.Chance(1, 4)
 	in.NRpm = []int{1, 2, 3, 10, 10, 50}[rng.Intn(6)]
 	in.Pwm0 = rng.Range(0, 255)
 	in.Mode0 = []int{0, 1, 2, 2, 3, 5}[rng.Intn(6)]
@@ -581,7 +586,7 @@ func genCtrlCase(rng *Rng, mode string, cmdOK bool) (ctrlIn, []string) {
 		if in.Kind != "hwmon" {
 			constCurve = []int{240, 250, 253, 254, 255}[rng.Intn(5)] // file/cmd fans have the full range: start near the top
 		}
-	} else if mode == "stall" || mode == "const" {
+	} else if mode == "stall" || mode == "const" || mode == "stallext" {
 		constCurve = rng.Range(0, 255)
 		if rng.Chance(1, 4) {
 			constCurve = 0
@@ -595,6 +600,16 @@ func genCtrlCase(rng *Rng, mode string, cmdOK bool) (ctrlIn, []string) {
 		}
 		n = rng.Range(8, 40)
 		stallFrom = 0
+	}
+	extKind := 0
+	if mode == "stallext" { // a stalled never-stop fan whose PWM read-back persistently differs from what fan2go set
+		in.NeverStop, in.HasRpm = true, true // (foreign writer after every cycle, or every write failing)
+		if in.Alg == "pid" {
+			in.Alg = "direct"
+		}
+		n = rng.Range(10, 40)
+		stallFrom = rng.Range(0, 3)
+		extKind = rng.Intn(3)
 	}
 	if mode == "stallmax" { // a dead never-stop fan on a narrow PWM range: the walk to the maximum must end with the stall error
 		in.NeverStop, in.HasRpm = true, true
@@ -634,8 +649,20 @@ func genCtrlCase(rng *Rng, mode string, cmdOK bool) (ctrlIn, []string) {
 			}
 			in.Hist = append(in.Hist, e)
 		}
+		if mode == "stallext" && i >= stallFrom && extKind < 2 {
+			e := ctrlEv{T: "ext"}
+			if extKind == 0 {
+				e.Pwm = ctrlPtr(rng.Range(0, 255))
+			} else {
+				e.Pwm, e.Adaptive = ctrlPtr(0), "near"
+			}
+			in.Hist = append(in.Hist, e)
+		}
 		if in.HasRpm {
 			np := rng.Range(0, 3)
+			if mode == "stallext" {
+				np = rng.Range(1, 3)
+			}
 			if mode == "stall" || mode == "recover" || mode == "stallmax" {
 				np = rng.Range(1, 3)
 			}
@@ -648,7 +675,7 @@ func genCtrlCase(rng *Rng, mode string, cmdOK bool) (ctrlIn, []string) {
 					rpm = ctrlPtr(rng.Range(500, 3000))
 				case mode == "stallmax":
 					rpm = ctrlPtr(0)
-				case mode == "stall" && i >= stallFrom:
+				case (mode == "stall" || mode == "stallext") && i >= stallFrom:
 					rpm = ctrlPtr(0)
 				case rng.Chance(1, 25):
 					rpm = nil
@@ -673,6 +700,9 @@ func genCtrlCase(rng *Rng, mode string, cmdOK bool) (ctrlIn, []string) {
 		} else {
 			e.Curve = ctrlPtr(ctrlGenCurveVal(rng))
 		}
+		if mode == "stallext" && extKind == 2 && i > stallFrom {
+			e.WriteOk = false
+		}
 		if mode == "fault" {
 			if rng.Chance(1, 6) {
 				e.ReadOk = false
@@ -695,6 +725,10 @@ func genCtrlCase(rng *Rng, mode string, cmdOK bool) (ctrlIn, []string) {
 			in.Hist = append(in.Hist, ctrlEv{T: "poll", Rpm: ctrlPtr(rng.Range(600, 3000))})
 			in.Hist = append(in.Hist, ctrlEv{T: "cycle", Curve: ctrlPtr(v), Dt: int64(rng.Range(50, 2000)) * 1e6, ReadOk: true, WriteOk: true, ModeOk: true})
 		}
+	}
+	if cfgAlg {
+		in.CfgAlg = ctrlPickCfgAlg(rng, in)
+		tags = append(tags, "cfg_alg="+in.CfgAlg)
 	}
 	return in, tags
 }
@@ -757,7 +791,7 @@ func init() {
 		n := ctx.Param("n", 600)
 		modes := strings.Split(ctx.Params["modes"], ",")
 		if ctx.Params["modes"] == "" {
-			modes = []string{"random", "stall", "const", "ext", "fault", "recover", "stallmax"}
+			modes = []string{"random", "stall", "const", "ext", "fault", "recover", "stallmax", "stallext"}
 		}
 		cmdEvery := ctx.Param("cmd", 1)
 		for i := 0; i < n; i++ {
@@ -770,6 +804,8 @@ func init() {
 			in, tags := genCtrlCase(rng, "random", false)
 			in.Alg, in.P, in.I, in.D = "pid", jF(0.3), jF(0.02), jF(0.005)
 			in.NeverStop = false
+			in.CfgAlg = []string{"", "pid", "absent"}[i%3]
+			tags = append(tags, "cfg_alg="+in.CfgAlg)
 			if len(in.Hist) > 12 {
 				in.Hist = in.Hist[:12]
 			}
